@@ -289,6 +289,13 @@ func Wide() *gq.SchemaDesc {
 			{Name: "r", Type: "DirEnum"}, {Name: "s", Type: "Int"}}},
 		gq.TypeDesc{Kind: "ENUM", Name: "DirEnum", Values: []gq.EnumValDesc{{Name: "K", Internal: "K"}, {Name: "L", Internal: "L"},
 			{Name: "M", Internal: "M"}, {Name: "N", Internal: "N"}}},
+		// a custom scalar whose coercion is NOT idempotent: "one" → 1, but 1 is not an accepted input
+		gq.TypeDesc{Kind: "SCALAR", Name: "Code",
+			Serialize:    [][2]interface{}{{1, "one"}, {2, "two"}, {3, "three"}},
+			ParseValue:   [][2]interface{}{{"one", 1}, {"two", 2}, {"three", 3}},
+			ParseLiteral: [][2]interface{}{{"one", 1}, {"two", 2}, {"three", 3}}},
+		gq.TypeDesc{Kind: "INPUT_OBJECT", Name: "CodeIn", InputFields: []gq.ArgDesc{{Name: "colors", Type: "[Color!]"}, {Name: "codes", Type: "[Code]"},
+			{Name: "grid", Type: "[[Color]]"}, {Name: "inner", Type: "CodeIn"}, {Name: "more", Type: "[CodeIn!]"}}},
 		// two names per internal value, one value without internal value (the name is used), one aliasing that name
 		gq.TypeDesc{Kind: "ENUM", Name: "Alias", Values: []gq.EnumValDesc{{Name: "RED", Internal: 0}, {Name: "CRIMSON", Internal: 0},
 			{Name: "BLUE"}, {Name: "AZURE", Internal: "BLUE"}}},
@@ -321,6 +328,8 @@ func Wide() *gq.SchemaDesc {
 			{Name: "node", Type: "Node"}, {Name: "nodes", Type: "[Node]"}, {Name: "typed", Type: "Typed"}, {Name: "u", Type: "U"}, {Name: "us", Type: "[U!]"},
 			{Name: "t1", Type: "T1"}, {Name: "strict", Type: "T2!"},
 			{Name: "alias", Type: "Alias", Args: []gq.ArgDesc{{Name: "x", Type: "Alias"}}}, {Name: "aliases", Type: "[Alias]"},
+			{Name: "echoCodes", Type: "String", Args: []gq.ArgDesc{{Name: "colors", Type: "[Color!]"}, {Name: "codes", Type: "[Code!]"}, {Name: "grid", Type: "[[Code]]"},
+				{Name: "in", Type: "CodeIn"}, {Name: "ins", Type: "[CodeIn]"}, {Name: "aliases", Type: "[Alias]"}}},
 			{Name: "echo", Type: "String", Args: echoArgs()}, {Name: "echoNoArgs", Type: "String"}, {Name: "echoNoArgs2", Type: "String"},
 			{Name: "staff", Type: "Staff"}, {Name: "staffs", Type: "[Staff!]"}, {Name: "role", Type: "Role"}, {Name: "zeta", Type: "Zeta"},
 			{Name: "zetaStaff", Type: "Staff"}, {Name: "zetaStaffs", Type: "[Staff!]"}, {Name: "zetaRole", Type: "Role"},
